@@ -74,6 +74,8 @@ type JobOut struct {
 	XChecked     int                `json:"xchecked"`
 	XAgree       int                `json:"xagree"`
 	XUnknown     int                `json:"xunknown"`
+	Retries      int                `json:"retries"`
+	RetriesOK    int                `json:"retries_decided"`
 	Exhausted    bool               `json:"exhausted"`
 	Violations   []interp.Violation `json:"violations"`
 	Witnesses    []interp.Witness   `json:"witnesses"`
@@ -154,7 +156,7 @@ func main() {
 				Paths: st.Paths, PathsDone: st.PathsDone, PathsAssume: st.PathsAssume, PathsViol: st.PathsViol,
 				Queries: st.Queries, SolverS: st.SolverTime.Seconds(), WallS: res.Wall.Seconds(), Instrs: st.Instrs,
 				Asserts: st.AssertChecks, AssertsConst: st.AssertConst, Reached: st.Reached, Obligations: st.Obligations,
-				Regions: st.Regions, RegionAborts: st.RegionAborts, MaxDepth: st.MaxDepth, Unknowns: st.Unknowns, XChecked: res.XChecked, XAgree: res.XAgree, XUnknown: res.XUnknown,
+				Regions: st.Regions, RegionAborts: st.RegionAborts, MaxDepth: st.MaxDepth, Unknowns: st.Unknowns, XChecked: res.XChecked, XAgree: res.XAgree, XUnknown: res.XUnknown, Retries: res.Retries, RetriesOK: res.RetriesDecided,
 				Exhausted: res.Exhausted, Violations: res.Violations, Witnesses: res.Witnesses, Undecided: res.Undecided}
 		}(k)
 	}
